@@ -84,9 +84,32 @@ fn pdata_for(guid: [u8; 16]) -> Vec<u8> {
 }
 
 const RTPS_KINDS: [&str; 5] = ["NONE", "SIGN", "ENCRYPT", "SIGN_WITH_ORIGIN_AUTHENTICATION", "ENCRYPT_WITH_ORIGIN_AUTHENTICATION"];
-const TOPICS: [&str; 8] = ["Tn", "Tms", "Tme", "Tmo", "Tds", "Tde", "Tb", "Tbs"];
+/// 8 user topics of the governance fixtures, then two built-in topics: participant discovery (one of
+/// the three bootstrap topics the specification exempts from RTPS-level protection) and publication
+/// discovery (not exempt)
+const TOPICS: [&str; 10] = ["Tn", "Tms", "Tme", "Tmo", "Tds", "Tde", "Tb", "Tbs", "DCPSParticipant", "DCPSPublication"];
+const USER_TOPICS: usize = 8;
+const T_SPDP: usize = 8;
+const T_SEDP_PUB: usize = 9;
+
+fn reader_eid(t: usize) -> Eid {
+  match t {
+    T_SPDP => [0, 1, 0, 0xc7],
+    T_SEDP_PUB => [0, 0, 3, 0xc7],
+    _ => [0, 0, 0x30 + t as u8, 0x07],
+  }
+}
+
+fn writer_eid(t: usize) -> Eid {
+  match t {
+    T_SPDP => [0, 1, 0, 0xc2],
+    T_SEDP_PUB => [0, 0, 3, 0xc2],
+    _ => [0, 0, 0x50 + t as u8, 0x02],
+  }
+}
 /// what the signed governance fixtures say about each topic: (metadata protection, data protection)
-const TOPIC_RULES: [(bool, bool); 8] = [(false, false), (true, false), (true, false), (true, false), (false, true), (false, true), (true, true), (true, true)];
+const TOPIC_RULES: [(bool, bool); 10] =
+  [(false, false), (true, false), (true, false), (true, false), (false, true), (false, true), (true, true), (true, true), (false, false), (false, false)];
 const TYPE: &str = "X";
 const UNKNOWN: Eid = [0, 0, 0, 0];
 
@@ -98,6 +121,8 @@ struct Endpoint {
   prot: EndpointProtection,
   /// R's endpoint matched with it
   peer: Guid,
+  /// an endpoint of one of the three bootstrap topics: RTPS-level protection does not apply to it
+  bootstrap: bool,
   next_sn: i64,
   hb_count: i32,
 }
@@ -225,9 +250,6 @@ impl Rig {
   /// endpoints for which the message contains something they may accept (over-approximation)
   fn acceptable(&self, blobs: &[Blob], rtps_ok: bool) -> BTreeSet<usize> {
     let mut acc = BTreeSet::new();
-    if !rtps_ok {
-      return acc;
-    }
     let mut i = 0;
     while i < blobs.len() {
       match &blobs[i].tag {
@@ -262,6 +284,8 @@ impl Rig {
       }
       i += 1;
     }
+    // RTPS-level protection: demanded of everything but the bootstrap endpoints
+    acc.retain(|e| rtps_ok || self.eps[*e].bootstrap);
     acc
   }
 }
@@ -339,17 +363,22 @@ pub fn run(_tier: &str, ctx: &mut Ctx) -> Check {
   let n_readers = ctx.ch.range(2, 5) as usize;
   let mut chosen: Vec<usize> = vec![];
   while chosen.len() < n_readers {
-    let t = ctx.ch.index(TOPICS.len());
+    let t = ctx.ch.index(USER_TOPICS);
     if !chosen.contains(&t) {
       chosen.push(t);
     }
+  }
+  // in a domain with RTPS-level protection: sometimes two built-in readers as well, one exempt, one not
+  if rtps_req && ctx.ch.chance(1, 2) {
+    chosen.push(T_SPDP);
+    chosen.push(T_SEDP_PUB);
   }
   let mut fp = simcore::digest::Fnv::new();
   fp.str(kind);
   for &t in &chosen {
     let topic = TOPICS[t];
-    let lr = l.guid_of([0, 0, 0x30 + t as u8, 0x07]);
-    let rw = r.guid_of([0, 0, 0x50 + t as u8, 0x02]);
+    let lr = l.guid_of(reader_eid(t));
+    let rw = r.guid_of(writer_eid(t));
     let lprot = l.register_reader(lr, topic).map_err(|e| v("HARNESS-ERROR/c17-register", e))?;
     let wprot = r.register_writer(rw, topic).map_err(|e| v("HARNESS-ERROR/c17-register", e))?;
     let prot = EndpointProtection { submessage: TOPIC_RULES[t].0, payload: TOPIC_RULES[t].1 };
@@ -357,7 +386,7 @@ pub fn run(_tier: &str, ctx: &mut Ctx) -> Check {
       ctx.count("probe.plugin_attributes_differ_from_governance");
     }
     let keys = lprot.submessage || lprot.payload || wprot.submessage || wprot.payload;
-    let reader = node.add_reader([0, 0, 0x30 + t as u8, 0x07], topic, TYPE, &rq);
+    let reader = node.add_reader(reader_eid(t), topic, TYPE, &rq);
     SecParty::link(&r, rw, &l, lr, keys).map_err(|e| v("HARNESS-ERROR/c17-link", e))?;
     node.remote_writer_discovered(discovered_writer_of(&r, rw, topic, TYPE, &rq, &[node_addr(2)]));
     node.drain_discovery_commands();
@@ -372,6 +401,7 @@ pub fn run(_tier: &str, ctx: &mut Ctx) -> Check {
       guid: lr,
       prot,
       peer: rw,
+      bootstrap: t == T_SPDP,
       next_sn: 1,
       hb_count: 0,
     });
@@ -399,7 +429,7 @@ pub fn run(_tier: &str, ctx: &mut Ctx) -> Check {
   }
   let n_writers = ctx.ch.weighted(&[2, 3, 1]);
   for k in 0..n_writers {
-    let t = chosen[k % chosen.len()];
+    let t = chosen[k % n_readers];
     let topic = TOPICS[t];
     let lw = l.guid_of([0, 0, 0x60 + t as u8, 0x02]);
     let rr = r.guid_of([0, 0, 0x70 + t as u8, 0x07]);
@@ -423,6 +453,7 @@ pub fn run(_tier: &str, ctx: &mut Ctx) -> Check {
       guid: lw,
       prot,
       peer: rr,
+      bootstrap: false,
       next_sn: 0,
       hb_count: 0,
     });
@@ -711,8 +742,11 @@ pub fn run(_tier: &str, ctx: &mut Ctx) -> Check {
               let postfixes: Vec<&Blob> = rig.pool.iter().filter(|b| matches!(b.tag, Tag::Part(_, 2))).collect();
               let mut post = postfixes[ctx.ch.index(postfixes.len())].clone();
               if pre.bytes.len() >= 8 {
-                pre.bytes[7] = ctx.ch.index(5) as u8; // transformation kind NONE / GMAC / GCM (128, 256)
-                pre.damaged = true;
+                let k = ctx.ch.index(5) as u8; // transformation kind NONE / GMAC / GCM (128, 256)
+                if pre.bytes[7] != k {
+                  pre.bytes[7] = k;
+                  pre.damaged = true;
+                }
               }
               if ctx.ch.chance(1, 2) && post.bytes.len() >= 20 {
                 for b in post.bytes[4..20].iter_mut() {
@@ -742,7 +776,8 @@ pub fn run(_tier: &str, ctx: &mut Ctx) -> Check {
     for b in &blobs {
       bytes.extend_from_slice(&b.bytes);
     }
-    let want_wrap = if honest { rtps_req } else { ctx.ch.chance(1, 2) };
+    let honest_bootstrap = honest && honest_expect.as_ref().map_or(false, |(e, _, _)| rig.eps[*e].bootstrap);
+    let want_wrap = if honest_bootstrap { ctx.ch.chance(1, 2) } else if honest { rtps_req } else { ctx.ch.chance(1, 2) };
     let mut rtps_wrapped = false;
     if want_wrap && rtps_req && src == rp {
       if let Ok(w) = r.protect(&bytes, &[], Some(&[lp])) {
@@ -826,6 +861,11 @@ pub fn run(_tier: &str, ctx: &mut Ctx) -> Check {
       if got {
         rig.eps[e].next_sn = sn + 1;
         ctx.count(if unprotected_topic { "probe.honest_unprotected_delivered" } else { "probe.honest_protected_delivered" });
+      } else if ep.bootstrap {
+        return Err(v(
+          "C17/bootstrap-traffic-blocked",
+          format!("rtps_protection_kind={kind}: honest DATA sn {sn} for the participant discovery reader (exempt from RTPS-level protection), sent {}, was not delivered", if rtps_wrapped { "inside R's RTPS protection" } else { "without RTPS protection" }),
+        ));
       } else if unprotected_topic {
         return Err(v(
           "C17/unprotected-traffic-blocked",
